@@ -63,15 +63,23 @@ func cmdCheck(args []string) int {
 		defer os.RemoveAll(d)
 		out = d
 	}
-	code := runProperty(*prop, *tier, *repo, *verif, out, nil, seed)
-	if code == 0 && *tier == "thorough" && !*noEvidence {
-		// thorough = quick rules + the mutant sensitivity suite for this property
-		if rc := runMutants(*prop, *repo, *verif, false); rc != 0 {
-			fmt.Printf("SELF-TEST FAILURE: the mutant suite for %s did not behave as recorded (see above)\n", *prop)
-			return 2
+	r := analyse(*prop, *tier, *repo, *verif, nil)
+	known, err := report.LoadKnown(filepath.Join(*verif, "KNOWN_FINDINGS.txt"))
+	if err != nil {
+		fmt.Fprintln(os.Stderr, "known findings:", err)
+		return 2
+	}
+	if *tier == "thorough" && !*noEvidence && len(r.Violations(known)) == 0 {
+		// thorough = the same rules + the property's mutant sensitivity suite (checker self-test through
+		// packages.Overlay; /repo is not touched). Its outcome is evidence, not a property verdict.
+		caught, silent, skipped, bad, lines := mutantSummary(*prop, *repo, *verif)
+		r.Extra["mutant_suite"] = map[string]any{"caught": caught, "benign_silent": silent, "skipped_no_longer_apply": skipped, "unexpected": bad, "results": lines}
+		fmt.Printf("mutant suite %s: %d caught, %d benign silent, %d skipped, %d unexpected\n", *prop, caught, silent, skipped, bad)
+		if bad > 0 {
+			fmt.Printf("SELF-TEST WARNING: %d mutants of %s did not behave as recorded (see evidence)\n", bad, *prop)
 		}
 	}
-	return code
+	return r.Finish(out, known, seed)
 }
 
 func runProperty(prop, tier, repo, verif, outDir string, overlay map[string][]byte, seed int64) (code int) {
